@@ -9,6 +9,7 @@ const TEXTS = {
   importSource: { t: '@jsxImportSource vue', factory: null }, runtime: { t: '@jsxRuntime automatic', factory: null }, frag: { t: '@jsxFrag FF', factory: null },
   unrelated: { t: 'just a comment about jsx', factory: null }, prose: { t: 'we do not set the @jsx pragma here', factory: null }, license: { t: '@license MIT', factory: null },
   other: { t: '@jsx gg', factory: 'gg' },
+  tab: { t: '@jsx\thh', factory: 'hh' }, twoSpaces: { t: '@jsx   hh  ', factory: 'hh' }, tabWords: { t: '@jsx\thh\tand words', factory: 'hh' }, glued: { t: '@jsxhh', factory: null },
 };
 const STYLES = {
   block: (t) => `/* ${t} */`,
@@ -31,6 +32,8 @@ const SHAPES = {
 // placement of the comment; `leading` = it is the leading comment of the module / a top-level statement
 const PLACEMENTS = {
   head: { leading: true, put: (cm, st) => [cm].concat(st) },
+  // the file starts with a hashbang line: the annotation still leads the first statement
+  headAfterHashbang: { leading: true, hashbang: true, put: (cm, st) => [cm].concat(st) },
   beforeSecond: { leading: true, put: (cm, st) => (st.length > 1 ? [st[0], cm].concat(st.slice(1)) : ['const z0 = 0;', cm].concat(st)) },
   beforeLast: { leading: true, put: (cm, st) => st.slice(0, -1).concat([cm, st[st.length - 1]]) },
   inFunction: { leading: false, put: (cm, st) => ['function unused() {\n  ' + cm.replace(/\n/g, '\n  ') + '\n  return 1;\n}'].concat(st) },
@@ -52,7 +55,7 @@ function render(c) {
   // an ordinary (non-annotation) comment before another top-level statement must not disturb the annotation
   if (c.extra === 'later') parts = parts.concat(['// the list\nconst zz = 2;', '/* eslint-disable-next-line */\nconst zz2 = 3;']);
   const early = c.extra === 'earlier' ? ['/* @license MIT */\nconst z00 = 0;'] : [];
-  return (c.place === 'head' ? parts.slice(0, 1).concat([PRELUDE], early, parts.slice(1)) : [PRELUDE].concat(early, parts)).join('\n') + '\n';
+  return (PLACEMENTS[c.place].hashbang ? '#!/usr/bin/env node\n' : '') + (c.place === 'head' || c.place === 'headAfterHashbang' ? parts.slice(0, 1).concat([PRELUDE], early, parts.slice(1)) : [PRELUDE].concat(early, parts)).join('\n') + '\n';
 }
 
 function requests(c) {
